@@ -111,18 +111,18 @@ Print Assumptions C16_bg_ks_verify_ok_inv.
 
 (* ---------------- signing succeeds and verifies ---------------- *)
 
-(* HYPOTHESIS rsa_signer_correct: the RSA signer returns a signature of the requested kind
-   that the verification oracle accepts for the public half, the same hash and the same data.
+(* HYPOTHESIS rsa_signer_correct: what the RSA signer returns is accepted by the verification
+   oracle for the public half of the key, the same scheme, hash and data.
    Then SetSignature followed by Verify succeeds for every RSA key (modulus < 8192 bytes),
    both schemes and both hashes the verifier supports, explicit or detected/defaulted. *)
-Theorem C16_sign_then_verify : forall verify sign ks sa ha n e d data sc h,
-  rsa_signer_correct verify sign ->
+Theorem C16_sign_then_verify : forall verify sign_rsa sign_ec ks sa ha n e d data sc h,
+  rsa_signer_correct verify sign_rsa ->
   0 <= n -> bytelen n < 8192 -> 0 <= e < 2 ^ 32 ->
   sc = detect_scheme sa (PrivRSA n e d) ->
   (sc = c16_alg_rsapss /\ h = default_hash c16_alg_sha384 ha \/
    sc = c16_alg_rsassa /\ h = default_hash c16_alg_sha256 ha) ->
   (h = c16_alg_sha256 \/ h = c16_alg_sha384) ->
-  exists ks', ks_set_signature sign ks sa ha (PrivRSA n e d) data = Ok ks' /\
+  exists ks', ks_set_signature sign_rsa sign_ec ks sa ha (PrivRSA n e d) data = Ok ks' /\
               ks_verify verify ks' data = Ok tt /\
               s_scheme (ks_sig ks') = sc /\ s_hashalg (ks_sig ks') = h.
 Proof. exact sign_then_verify. Qed.
@@ -131,12 +131,13 @@ Print Assumptions C16_sign_then_verify.
 (* ECDSA: SetSignature succeeds for every P-256 key and every (r, s) < 2^256 the signer returns;
    the structure holds the key and exactly that pair, each in 64 bytes, and names the hash the
    signer was given *)
-Theorem C16_ec_set_signature_total : forall sign ks sa ha x y d data r s,
+Theorem C16_ec_set_signature_total : forall sign_rsa sign_ec ks sa ha x y d data r s,
   0 <= x < 2 ^ 256 -> 0 <= y < 2 ^ 256 ->
   detect_scheme sa (PrivECC x y d) = c16_alg_ecdsa ->
-  sign (PrivECC x y d) c16_alg_ecdsa (default_hash c16_alg_sha512 ha) data = SigECDSA r s ->
+  cbnt_hash_size (default_hash c16_alg_sha512 ha) <> None ->
+  sign_ec (PrivECC x y d) c16_alg_ecdsa (default_hash c16_alg_sha512 ha) data = (r, s) ->
   0 <= r < 2 ^ 256 -> 0 <= s < 2 ^ 256 ->
-  exists ks', ks_set_signature sign ks sa ha (PrivECC x y d) data = Ok ks' /\
+  exists ks', ks_set_signature sign_rsa sign_ec ks sa ha (PrivECC x y d) data = Ok ks' /\
               pub_key (ks_key ks') = Ok (PubECC x y) /\
               signature_data (ks_sig ks') = Ok (SigECDSA r s) /\
               zlen (s_data (ks_sig ks')) = 64 /\ zlen (k_data (ks_key ks')) = 64 /\
